@@ -1,11 +1,12 @@
 (* Dispatcher used by both evaluation routes (vm_compute in cases.v, extracted runner). *)
 From Coq Require Import String List Bool.
-From HV Require Import Base.Sexp Model.DepKeys.
+From HV Require Import Base.Sexp Model.DepKeys Model.Merge.
 Import ListNotations.
 Open Scope string_scope.
 
 Definition run_kind (kind : string) (args : list sexp) : option sexp :=
   if String.eqb kind "schemakey" then run_schemakey args
+  else if String.eqb kind "merge" then run_merge args
   else None.
 
 (* (case <id> (<kind> args...) <observed>)  ->  (<id> ok) | (<id> diff <model-output>) | (<id> badinput) *)
